@@ -150,8 +150,10 @@ def _rel(cc) -> list:
     uselist = 0 if "uselist=False" in c else 1
     ann_t = re.search(r"\[([A-Za-z_0-9]+)\]+$", cc.type)
     rem = re.search(r"remote_side='([^']+)'", c)
+    joins = re.search(r"secondary='[^']+'(.*), cascade=", c)
     return [cc.name, tgt.group(1) if tgt else "?", uselist, fks.group(1) if fks else "", sec.group(1) if sec else "",
-            ann_t.group(1) if ann_t else "?", sorted(set(_mods_of(cc.type))), rem.group(1) if rem else ""]
+            ann_t.group(1) if ann_t else "?", sorted(set(_mods_of(cc.type))), rem.group(1) if rem else "",
+            joins.group(1) if joins else ""]
 
 
 def inspect_ormatic(o) -> dict:
@@ -410,7 +412,7 @@ def enc_gen(g) -> list:
                      [E(t["pk"][0]), E(t["pk"][1]), Eset(t["pk"][2])],
                      [col(c) for c in t["builtin"]], [col(c) for c in t["custom"]],
                      [[E(k[0]), E(k[1]), k[2], Eset(k[3])] for k in t["fks"]],
-                     [[E(r[0]), E(r[1]), r[2], E(r[3]), E(r[4]), E(r[5]), Eset(r[6]), E(r[7])] for r in t["rels"]],
+                     [[E(r[0]), E(r[1]), r[2], E(r[3]), E(r[4]), E(r[5]), Eset(r[6]), E(r[7]), E(r[8])] for r in t["rels"]],
                      [[E(k), E(v)] for k, v in t["mapper"]]])
     return [0, Eset(g["imports"]), [[E(x) for x in a] for a in g["assoc"]], tabs]
 
@@ -421,6 +423,8 @@ def canon_gen(enc) -> list:
 
 
 def enc_obs(res) -> list:
+    if res.get("stage") == "ormatic" and (res.get("error") or "").startswith("ValueError:"):
+        return [2]          # refused at generation with an error naming the clash (bd9b8e0)
     if res.get("stage") != "ok" or "obs" not in res:
         return [0]
     classes, unused = res["obs"]
@@ -754,9 +758,9 @@ def evaluate(rep, descrs: List[dict], model_ok: bool, label: str, det_fraction: 
         order = [t["cls"] for t in r["gen"]["tables"]] if "gen" in r else [c["name"] for c in d["classes"] if is_mapped_cls(c)]
         if model_ok:
             exprs.append(f"let M := {model_term(d)} in let o := {gstrs(order)} in\n"
-                         f"   SL [case_gen M o; case_obs M o; spec_obs M; case_info M o]")
+                         f"   SL [case_gen M o; case_obs M o; case_spec M; case_info M o]")
         else:
-            exprs.append(f"let M := {model_term(d)} in SL [SL []; SL []; spec_obs M; SL []]")
+            exprs.append(f"let M := {model_term(d)} in SL [SL []; SL []; spec_obs_r (fun n => n ++ \"DAO\")%string (fun t f => py_lower t ++ \"_\" ++ f ++ \"_association\")%string M; SL []]")
     vals = core.coq_values(PROP, HEADER if model_ok else HEADER_SPEC, exprs, chunk=max(1, (len(exprs) + 15) // 16), tag=f"{label}_{RUN_TAG}")
     recs = []
     for i, (d, r, v) in enumerate(zip(descrs, main_res, vals)):
@@ -771,7 +775,7 @@ def classify(impl, model, spec) -> int:
     return 2 if impl == model else 3
 
 
-KCLASS_ORDER = ["K_selfcoll", "K_reserved", "K_pkname", "K_casefold", "K_assocname", "K_fkalias", "K_discname"]   # K_nobuiltin: repaired (b804898)
+KCLASS_ORDER = ["K_casefold"]   # the only open class inside the Coq grammar; a, c, d, e, f, h are repaired (c757abc, bd9b8e0), b (b804898), i (280300b)
 
 
 MAX_REPLAYS = 6
@@ -800,7 +804,7 @@ def _judge(rep, rec, model_ok: bool, findings_seen: Dict[str, int]) -> str:
     spec = rec["spec_obs"]
     base = {"case": d, "impl_stage": r.get("stage"), "impl_error": r.get("error"), "python": snippet(d),
             "classes_outside_F": kclasses}
-    if r.get("stage") in ("crash", "timeout", "start", "diagram", "ormatic") and not kclasses:
+    if r.get("stage") in ("crash", "timeout", "start", "diagram", "ormatic") and not kclasses and impl_obs != [2]:
         rep.violation(dict(base, kind="counterexample", explanation="generation itself failed on a model of the supported grammar"))
         return "violation"
     stale = False
@@ -837,7 +841,7 @@ def _judge(rep, rec, model_ok: bool, findings_seen: Dict[str, int]) -> str:
         return "known:" + kclasses[0]
     rep.violation(dict(base, kind="counterexample", impl=D(impl_obs), model=D(rec["model_obs"]) if model_ok else None, spec=D(spec),
                        explanation="the mapped layer SQLAlchemy builds from the generated module differs from what the annotations call for "
-                                   "([0] = import/configure_mappers/create_all failed). entry: [class, parent, discriminator, identity, pk ok, "
+                                   "([0] = import/configure_mappers/create_all failed, [2] = refused at generation with a ValueError naming a name clash). entry: [class, parent, discriminator, identity, pk ok, "
                                    "columns[name,type code,enum,nullable], references[name,target,ok], collections[name,target,ok], stray fk columns]"))
     return "violation"
 
@@ -1010,7 +1014,10 @@ def judge_scenarios(rep, findings) -> None:
     for name, sc in load_scenarios():
         res = run_scenario(name, sc)
         rep.count("scenario:" + name, True)
-        good = res.get("stage") == "ok" and not res.get("problems")
+        if sc.get("expect_refused"):    # a name clash: the repaired behaviour is a ValueError at generation naming it
+            good = res.get("stage") == "ormatic" and res.get("error_type") == "ValueError"
+        else:
+            good = res.get("stage") == "ok" and not res.get("problems")
         fnd = [f for f in findings if f.witness.endswith("/" + name)]
         if fnd and fnd[0].kind == "open":
             exp = sc.get("recorded", {})
@@ -1026,7 +1033,7 @@ def judge_scenarios(rep, findings) -> None:
             rep.violation({"kind": "counterexample", "scenario": name, "case": sc, "impl": res,
                            "python": f"from harness import c06, json; print(c06.run_scenario({name!r}, json.load(open('/verif/corpus/C06/{name}'))))",
                            "explanation": "expected: the generated layer imports, configures, creates its schema, has exactly one DAO per class and a "
-                                          "mapped attribute for every own public field"})
+                                          "mapped attribute for every own public field (or, for a scenario marked expect_refused, a ValueError at generation)"})
 
 
 def run(tier: str, seed: int, replay=None) -> int:
@@ -1071,7 +1078,8 @@ def run(tier: str, seed: int, replay=None) -> int:
         res = run_scenario(replay.get("scenario", "replay.json"), replay["case"])
         rep.count("scenario-replay", True)
         exp = replay["case"].get("recorded")
-        if res.get("stage") == "ok" and not res.get("problems"):
+        if (res.get("stage") == "ormatic" and res.get("error_type") == "ValueError") if replay["case"].get("expect_refused") \
+                else (res.get("stage") == "ok" and not res.get("problems")):
             rep.note("replay: ok")
         elif exp and res.get("stage") == exp.get("stage") and res.get("error_type") == exp.get("error_type") and \
                 any(f.kind == "open" and f.witness.endswith("/" + replay.get("scenario", "")) for f in findings):
